@@ -1,6 +1,7 @@
 package rules
 
 import (
+	"go/types"
 	"go/token"
 	"sort"
 	"strings"
@@ -40,6 +41,7 @@ func cloneElements(fn *ssa.Function, withClosures bool) map[string]bool {
 						continue
 					}
 					name := ""
+					asMethod := false
 					if cc.IsInvoke() {
 						name = "invoke " + cc.Method.Name()
 					} else if callee := cc.StaticCallee(); callee != nil {
@@ -63,12 +65,24 @@ func cloneElements(fn *ssa.Function, withClosures bool) map[string]bool {
 							continue
 						}
 						name = core.FnName(callee)
+						// a plain function that takes the clone's receiver as its first parameter is the method
+						// `(*T).name` written the other way round: same element
+						if callee.Signature.Recv() == nil && fn.Signature.Recv() != nil && len(callee.Params) > 0 && len(cc.Args) > 0 &&
+							types.Identical(callee.Params[0].Type(), fn.Signature.Recv().Type()) && cc.Args[0] == ssa.Value(fn.Params[0]) {
+							if i := strings.LastIndex(name, "."); i >= 0 {
+								name = "(" + strings.TrimSuffix(core.FnName(fn), "."+fn.Name())[1:] + "." + name[i+1:]
+								if !strings.HasPrefix(name, "(*") && !strings.HasPrefix(name, "((") {
+									name = "(" + strings.TrimPrefix(name, "(")
+								}
+							}
+							asMethod = true
+						}
 					} else {
 						name = "dynamic call"
 					}
 					var args []string
 					for i, a := range cc.Args {
-						if i == 0 && cc.Signature().Recv() != nil && !cc.IsInvoke() {
+						if i == 0 && (cc.Signature().Recv() != nil && !cc.IsInvoke() || asMethod) {
 							continue
 						}
 						for _, leaf := range argLeaves(a) {
